@@ -660,6 +660,13 @@ func openers() []Input {
 		{K: "jail", V: 2},
 		{K: "end", Jump: "period", Votes: []Vote{{0, []Tuple{{0, rate(100)}, {1, rate(200)}}}, bad(2)}},
 	}})
+	// a single huge (accepted) vote makes the squared deviation overflow: StandardDeviation recovers
+	// to 0, the band shrinks to median*band/2, and the vote at 101.5 is a miss
+	huge := "1" + fmt.Sprintf("%088d", 0)
+	out = append(out, Input{Params: base, WL: []int{0}, Vals: []string{ten, ten, ten}, Ops: []Op{
+		{K: "end", Jump: "period", Votes: []Vote{good(0), {1, []Tuple{{0, "101500000000000000000"}}}, {2, []Tuple{{0, huge}}}}},
+		{K: "end", Jump: "period", Votes: []Vote{good(0), {1, []Tuple{{0, "101500000000000000000"}}}, {2, []Tuple{{0, rate(103)}}}}},
+	}})
 	return out
 }
 
